@@ -862,6 +862,8 @@ def c_val(v) -> str:
         return f"(VList {clist(c_val(x) for x in v[1])})"
     if k == "m":
         return f"(VDict {clist(cpair(cstr(a), c_val(b)) for a, b in v[1])})"
+    if k == "W":
+        return f"(VWrap {clist(cpair(cstr(a), c_val(b)) for a, b in v[1])})"
     return f"(VData {v[1]} {clist(cpair(cstr(a), c_val(b)) for a, b in v[2])})"
 
 
@@ -882,7 +884,7 @@ def strings_of(v, acc: set, nodes: list, byts: set) -> None:
     elif k == "l":
         for x in v[1]:
             strings_of(x, acc, nodes, byts)
-    elif k == "m":
+    elif k in ("m", "W"):
         for a, b in v[1]:
             acc.add(a)
             strings_of(b, acc, nodes, byts)
